@@ -1,3 +1,4 @@
+import NadaVerif.Runtime.Timer
 import Lean.Data.Json
 import NadaVerif.Scalar
 import NadaVerif.Py.Int
@@ -99,6 +100,31 @@ def handle (j : Json) : Json :=
           Json.mkObj [("indices", Json.arr (p.1.map fun (i : Nat) => Json.num i).toArray), ("table", Json.arr (p.2.map refJson).toArray)]
         | _, _ => Json.mkObj [("error", Json.str "bad reference")])
      | _, _ => Json.mkObj [("error", Json.str "bad intern request")])
+  | .ok "timers" =>
+    -- a history of compilations with the timers enabled: outcome codes, the attempted start / stop calls, the timers left running
+    let nameStr : Runtime.TName → String
+      | .compileScript => "nada_dsl.compile.compile"
+      | .compileString => "nada_dsl.compile.compile_string"
+      | .importProgram => "nada_dsl.compile.compile.__import__"
+      | .output n => "nada_dsl.compiler_frontend.nada_dsl_to_nada_mir." ++ n ++ ".process_operation"
+    let progOf (j : Json) : Option (Bool × Runtime.Prog) :=
+      match j.getObjValAs? Bool "string", j.getObjValAs? Bool "importFails", j.getObjValAs? Bool "mainFails",
+            j.getObjValAs? (Array Json) "outputs" with
+      | .ok v, .ok i, .ok m, .ok os =>
+        (os.toList.mapM fun (o : Json) => match o.getArrVal? 0, o.getArrVal? 1 with
+          | .ok n, .ok f => (match n.getStr?, f.getBool? with | .ok n, .ok f => some (n, f) | _, _ => none)
+          | _, _ => none).map fun outs => (v, { importFails := i, mainFails := m, outputs := outs })
+      | _, _, _, _ => none
+    (match j.getObjValAs? (Array Json) "history" with
+     | .ok h =>
+       (match h.toList.mapM progOf with
+        | some hist =>
+          let r := Runtime.runHistory {} hist
+          Json.mkObj [("outcomes", Json.arr (r.1.map fun o => Json.num (Runtime.TErr.code o : Nat)).toArray),
+                      ("log", Json.arr (r.2.log.map fun (st, n) => Json.arr #[Json.bool st, Json.str (nameStr n)]).toArray),
+                      ("running", Json.arr (r.2.running.map fun n => Json.str (nameStr n)).toArray)]
+        | none => Json.mkObj [("error", Json.str "bad program")])
+     | _ => Json.mkObj [("error", Json.str "bad timers request")])
   | .ok "c15cells" => Json.mkObj [
       ("cellAgrees", failingRows C15.cellAgrees),
       ("checkerSound", Json.arr ((checkerTable.filter (fun r => !C15.checkerCellSound r || !C15.checkerCellProgress r)).map fun r =>
